@@ -155,14 +155,14 @@ func fixedScenarios() []scenario {
 			step{Op: "release", ID: 2, Out: "ok"}, step{Op: "waitret", ID: 2}, step{Op: "release", ID: 1, Out: "rpcerr"}, step{Op: "waitret", ID: 1}),
 		S("fixed/cancel-sent-then-late-response", start(1, "c1"), step{Op: "waitenter", ID: 1}, step{Op: "cancel", ID: 1}, step{Op: "waitret", ID: 1},
 			start(2, "c1"), step{Op: "waitenter", ID: 2}, step{Op: "release", ID: 1, Out: "ok"}, step{Op: "release", ID: 2, Out: "ok"}, step{Op: "waitret", ID: 2}),
-		S("fixed/cancel-unsent-while-refused", step{Op: "proxy", Cl: "c1", Mode: "refuse"}, start(1, "c1"), start(2, "c1"),
+		S("fixed/cancel-unsent-while-refused", step{Op: "proxy", Cl: "c1", Mode: "refuse"}, start(1, "c1"), step{Op: "waitproxy", Cl: "c1", ID: 1}, start(2, "c1"),
 			step{Op: "cancel", ID: 1}, step{Op: "waitret", ID: 1}, step{Op: "proxy", Cl: "c1", Mode: "pass"},
 			step{Op: "waitenter", ID: 2}, step{Op: "release", ID: 2, Out: "ok"}, step{Op: "waitret", ID: 2}),
-		S("fixed/cancel-unsent-while-held", step{Op: "proxy", Cl: "c1", Mode: "hold"}, start(1, "c1"), start(2, "c1"),
+		S("fixed/cancel-unsent-while-held", step{Op: "proxy", Cl: "c1", Mode: "hold"}, start(1, "c1"), step{Op: "waitproxy", Cl: "c1", ID: 1}, start(2, "c1"),
 			step{Op: "cancel", ID: 1}, step{Op: "waitret", ID: 1}, start(3, "c1"), step{Op: "proxy", Cl: "c1", Mode: "pass"},
 			step{Op: "waitenter", ID: 2}, step{Op: "waitenter", ID: 3}, step{Op: "release", ID: 2, Out: "ok"}, step{Op: "release", ID: 3, Out: "ok"},
 			step{Op: "waitret", ID: 2}, step{Op: "waitret", ID: 3}),
-		S("fixed/failfast-while-reconnecting", step{Op: "proxy", Cl: "c1", Mode: "refuse"}, start(1, "c1"),
+		S("fixed/failfast-while-reconnecting", step{Op: "proxy", Cl: "c1", Mode: "refuse"}, start(1, "c1"), step{Op: "waitproxy", Cl: "c1", ID: 1},
 			step{Op: "start", ID: 2, Cl: "c1", FF: true}, step{Op: "waitret", ID: 2}, step{Op: "proxy", Cl: "c1", Mode: "pass"},
 			step{Op: "waitenter", ID: 1}, step{Op: "release", ID: 1, Out: "err"}, step{Op: "waitret", ID: 1}),
 		S("fixed/cut-with-sent-and-reconnect", start(1, "c1"), start(4, "c2"), step{Op: "waitenter", ID: 1}, step{Op: "waitenter", ID: 4},
@@ -170,8 +170,8 @@ func fixedScenarios() []scenario {
 			step{Op: "release", ID: 2, Out: "ok"}, step{Op: "waitret", ID: 2}, step{Op: "release", ID: 4, Out: "ok"}, step{Op: "waitret", ID: 4}),
 		S("fixed/client-close-with-pending", start(1, "c1"), start(2, "c1"), step{Op: "waitenter", ID: 1},
 			step{Op: "close", Side: "c1"}, step{Op: "waitret", ID: 1}, step{Op: "waitret", ID: 2}, start(3, "c1"), step{Op: "waitret", ID: 3}),
-		S("fixed/client-close-with-unsent", step{Op: "proxy", Cl: "c1", Mode: "refuse"}, start(1, "c1"), start(2, "c1"),
-			step{Op: "close", Side: "c1"}, step{Op: "waitret", ID: 1}, step{Op: "waitret", ID: 2}),
+		S("fixed/client-close-with-unsent", step{Op: "proxy", Cl: "c1", Mode: "refuse"}, start(1, "c1"), step{Op: "waitproxy", Cl: "c1", ID: 1},
+			start(2, "c1"), step{Op: "close", Side: "c1"}, step{Op: "waitret", ID: 1}, step{Op: "waitret", ID: 2}),
 		S("fixed/server-close-with-pending", start(1, "c1"), start(4, "c2"), step{Op: "waitenter", ID: 1}, step{Op: "waitenter", ID: 4},
 			step{Op: "close", Side: "server"}, step{Op: "waitret", ID: 1}, step{Op: "waitret", ID: 4}),
 		S("fixed/timeout-handler-held", step{Op: "start", ID: 1, Cl: "c1", TmoMs: 300}, step{Op: "waitenter", ID: 1},
